@@ -821,6 +821,7 @@ func (v *Verifier) verifyFunc(fn *ssa.Function, con *Contract) *Unit {
 		sem := make(chan struct{}, 12)
 		for i, o := range u.AutoObls {
 			o.Name = fmt.Sprintf("autoframe%d", i)
+			o.replayDone = true // no model terms: replayTerms touches shared tables
 			sem <- struct{}{}
 			go func(o *Obligation) {
 				defer func() { <-sem }()
